@@ -59,7 +59,7 @@ func c02Layout(tier string) c02Lay {
 	l.nTwin = pick(tier, 3000, 200000)
 	l.nExits = c02ExitExhaustive() + pick(tier, 250, 5000)
 	l.nEsc = c02EscExhaustive() + pick(tier, 200, 5000)
-	l.nDepth = c02DepthExhaustive() + pick(tier, 205, 6000)
+	l.nDepth = c02DepthExhaustive() + pick(tier, 175, 6000)
 	l.total = l.nShapes + l.nBlocked + l.nTwin + l.nExits + l.nEsc + l.nDepth
 	return l
 }
